@@ -22,6 +22,7 @@
 #include <sstream>
 #include <string>
 #include <type_traits>
+#include <unordered_set>
 #include <utility>
 #include <vector>
 
@@ -48,6 +49,12 @@ struct vlog {
 		}
 	}
 	static void clear() { lines().clear(); }
+};
+
+// blocks that an allocator handed out and took back (keyed by start address): a checked pointer whose provenance is
+// such a block must not be dereferenced any more ("inside a LIVE block"), even though the storage may still exist
+struct released {
+	static auto set() -> std::unordered_set<void const*>& { static std::unordered_set<void const*> s; return s; }
 };
 
 // ------------------------------------------------------------------------------------------------
@@ -78,6 +85,14 @@ template<class U> struct arena {  // one per element type
 		top() += n + 1;  // one element of slack between blocks
 		return o;
 	}
+	// quarantining allocators (lifecycle harness): blocks are never reused inside a case, rewind() starts the next case
+	static auto bump(std::ptrdiff_t n) -> std::ptrdiff_t {
+		if(top() + n + 1 > capacity) { throw std::bad_alloc{}; }
+		auto o = top();
+		top() += n + 1;
+		return o;
+	}
+	static void rewind() { top() = first; freelist().clear(); live() = 0; }
 	static void give_back(std::ptrdiff_t off, std::ptrdiff_t n) {
 		--live();
 		freelist()[n].push_back(off);
@@ -174,8 +189,9 @@ template<class T> class checked_ptr {
 	constexpr checked_ptr(from_parts /*tag*/, T* p, T* lo, T* hi) : p_{p}, lo_{lo}, hi_{hi} {}
 	auto checked_(T* q, char const* what) const -> std::add_lvalue_reference_t<T> {
 		++vlog::n_deref();
-		if(q < lo_ || q >= hi_ || lo_ == nullptr) {
-			vlog::add(what, lo_ ? q - lo_ : 0, lo_ ? hi_ - lo_ : 0);
+		bool const dead = lo_ != nullptr && !released::set().empty() && released::set().count(static_cast<void const*>(lo_)) != 0;
+		if(q < lo_ || q >= hi_ || lo_ == nullptr || dead) {
+			vlog::add(dead ? "released-block" : what, lo_ ? q - lo_ : 0, lo_ ? hi_ - lo_ : 0);
 			static std::aligned_storage_t<sizeof(T) < 64 ? 64 : sizeof(T), alignof(std::max_align_t)> dummy;  // the access is diverted
 			return *reinterpret_cast<T*>(&dummy);  // NOLINT
 		}
@@ -246,6 +262,7 @@ template<class T> struct checked_alloc {
 	auto allocate(size_type n) -> pointer {
 		T* raw = std::allocator<T>{}.allocate(n + 2) + 1;  // one element of slack on both sides
 		ledger::blocks()[reinterpret_cast<char const*>(raw)] = n * sizeof(T);  // NOLINT
+		released::set().erase(static_cast<void const*>(raw));
 		return pointer{typename pointer::from_parts{}, raw, raw, raw + n};
 	}
 	void deallocate(pointer p, size_type n) {
@@ -255,6 +272,7 @@ template<class T> struct checked_alloc {
 			return;
 		}
 		ledger::blocks().erase(it);
+		if(n != 0) { released::set().insert(static_cast<void const*>(p.p_)); }
 		std::allocator<T>{}.deallocate(p.p_ - 1, n + 2);
 	}
 	template<class V, class... As> void construct(V* where, As&&... as) {
@@ -350,6 +368,9 @@ struct fancy_policy {
 	template<class T> static auto unconst(fancy_ptr<T> p) -> fancy_ptr<T> { return p; }
 	template<class T> static auto to(T& r) -> fancy_ptr<T> { auto p = std::pointer_traits<fancy_ptr<T>>::pointer_to(r); --vlog::n_pointer_to(); return p; }
 	template<class T> static auto peek(fancy_ptr<T> p) -> T* { return p.addr_(); }
+	// for harness-side allocators (ptr11_life_alloc.hpp)
+	template<class T> static auto from_offset(std::ptrdiff_t off) -> fancy_ptr<T> { return fancy_ptr<T>{typename fancy_ptr<T>::from_offset{}, off}; }
+	template<class T> static auto offset_of(fancy_ptr<T> p) -> std::ptrdiff_t { return p.off_; }
 };
 
 struct checked_policy {
@@ -362,6 +383,7 @@ struct checked_policy {
 		auto cell(std::ptrdiff_t k) -> T& { return v[static_cast<std::size_t>(k)]; }
 		auto size() const -> std::ptrdiff_t { return static_cast<std::ptrdiff_t>(v.size()); }
 		auto at(std::ptrdiff_t first, std::ptrdiff_t len) -> checked_ptr<T> {
+			released::set().erase(static_cast<void const*>(v.data() + first));  // the address may have been a released allocator block before
 			return checked_ptr<T>{typename checked_ptr<T>::from_parts{}, v.data() + first, v.data() + first, v.data() + first + len};
 		}
 	};
@@ -371,6 +393,7 @@ struct checked_policy {
 	template<class T> static auto unconst(checked_ptr<T> p) -> checked_ptr<T> { return p; }
 	template<class T> static auto to(T& r) -> checked_ptr<T> { auto p = std::pointer_traits<checked_ptr<T>>::pointer_to(r); --vlog::n_pointer_to(); return p; }
 	template<class T> static auto peek(checked_ptr<T> p) -> T* { return p.p_; }
+	template<class T> static auto from_range(T* p, T* lo, T* hi) -> checked_ptr<T> { return checked_ptr<T>{typename checked_ptr<T>::from_parts{}, p, lo, hi}; }
 };
 
 #ifndef PTR11_KIND
@@ -388,7 +411,7 @@ using policy = checked_policy;
 // With strict = true (program families: trivially constructible int elements, or array_refs over harness storage) the
 // library has no reason to turn an element pointer into a raw address or back: any call of pointer_traits::to_address
 // or pointer_to made by the library (the harness's own uses are not counted) is reported as well.
-template<class OS> void report_case(OS& os, std::string const& id, bool strict = false) {
+template<class OS> void report_case(OS& os, std::string const& id, bool strict = false, char const* tag = "K") {
 	if(strict && (vlog::n_to_address() != 0 || vlog::n_pointer_to() != 0)) {
 		std::ostringstream m;
 		m << "library-converted-element-pointer:to_address=" << vlog::n_to_address() << ",pointer_to=" << vlog::n_pointer_to();
@@ -397,7 +420,7 @@ template<class OS> void report_case(OS& os, std::string const& id, bool strict =
 	vlog::n_to_address() = 0;
 	vlog::n_pointer_to() = 0;
 	if(!vlog::lines().empty()) {
-		os << "K " << id << " violations=" << vlog::lines().size();
+		os << tag << ' ' << id << " violations=" << vlog::lines().size();
 		for(auto const& l : vlog::lines()) { if(!l.empty()) { os << ' ' << l; } }
 		os << '\n';
 	}
